@@ -73,21 +73,23 @@ def confirm(outdir, n, name):
 
 
 def detect(name, tier="quick", seed=None):
+    # the repo next to this verif directory (a sandbox copy /tmp/detN/{repo,verif} detects in parallel)
+    REPO = os.path.normpath(os.path.join(ROOT, "..", "repo"))
     d = os.path.join(ROOT, "seeded", name)
     meta = json.load(open(os.path.join(d, "meta.json")))
     pid = meta["property"]
-    st = subprocess.run(["git", "-C", "/repo", "status", "--porcelain"], capture_output=True, text=True).stdout.strip()
-    assert not st, "/repo working tree is not clean:\n" + st
-    rc = subprocess.run(["git", "-C", "/repo", "apply", os.path.join(d, "patch.diff")]).returncode
-    assert rc == 0, "patch does not apply to /repo"
+    st = subprocess.run(["git", "-C", REPO, "status", "--porcelain"], capture_output=True, text=True).stdout.strip()
+    assert not st, "repo working tree is not clean:\n" + st
+    rc = subprocess.run(["git", "-C", REPO, "apply", os.path.join(d, "patch.diff")]).returncode
+    assert rc == 0, "patch does not apply"
     try:
         t0 = time.time()
         cmd = [os.path.join(ROOT, "verif.py"), "check", pid, "--tier", tier] + (["--seed", str(seed)] if seed else [])
         p = subprocess.run(cmd, cwd=ROOT, capture_output=True, text=True)
         out = p.stdout + p.stderr
     finally:
-        subprocess.run(["git", "-C", "/repo", "checkout", "--", "."])
-        subprocess.run(["git", "-C", "/repo", "clean", "-fdq", "src", "tests"])
+        subprocess.run(["git", "-C", REPO, "checkout", "--", "."])
+        subprocess.run(["git", "-C", REPO, "clean", "-fdq", "src", "tests"])
     viol = [l for l in out.splitlines() if l.startswith("VIOLATION")]
     meta.setdefault("detection", {})[tier if not seed else f"{tier}-seed{seed}"] = {
         "detected": bool(viol) and p.returncode == 1, "exit": p.returncode, "lines": [l for l in out.splitlines() if l.startswith(("VIOLATION", "#", "KNOWN"))][:4],
